@@ -1,7 +1,7 @@
 (* Property C16 -- suffix and base.  Statements only. *)
 From Coq Require Import List NArith Bool Arith.
 Import ListNotations.
-Require Import V.Regex V.Parse V.ParseProofs V.PathSpec V.Splice V.Setters V.SetPath V.Iter V.PathQ V.Push V.PathMut V.Reference V.Cmp V.Rfc V.C16Proofs V.C16Proofs2 V.DirProofs V.C16Proofs3.
+Require Import V.Regex V.Parse V.ParseProofs V.PathSpec V.Splice V.Setters V.SetPath V.Iter V.PathQ V.Push V.PathMut V.Reference V.Cmp V.Rfc V.C16Proofs V.C16Proofs2 V.DirProofs V.C16Proofs3 V.C16Proofs4.
 Local Open Scope nat_scope.
 
 (* a suffix is produced only when the prefix's (normalised) segments are a leading part of the value's,
@@ -56,6 +56,18 @@ Theorem C16_reconstruction_partial : forall a p r, none_of [QM; HASH] a -> none_
   Forall2 seg_eq (nsegs a) (norm (is_abs p) (segs p ++ segs r)).
 Proof. exact suffix_reconstruct. Qed.
 Print Assumptions C16_reconstruction_partial.
+(* the same law on TEXTS: pushing the suffix's segments one by one onto the prefix path held as a PathBuf
+   (append_segs = the push loop of the library) never panics and gives a path that the value is == to (Cmp.eq_path) *)
+Theorem C16_reconstruction_text_partial : forall a p r, none_of [QM; HASH] a -> none_of [QM; HASH] p -> path_suffix a p = Some (Some r) ->
+  Forall (fun x => dec x <> None) (nsegs a) ->
+  plain (skipn (length (nsegs p)) (nsegs a)) \/ all_dotdot (nsegs p) ->
+  exists back, append_segs p (segs r) = Some (Some back) /\ eq_path a back = Some true.
+Proof. exact suffix_reconstruct_text. Qed.
+Print Assumptions C16_reconstruction_text_partial.
+(* the suffix is a well-formed path, and a PathBuf keeps its absoluteness under push *)
+Theorem C16_suffix_wf : forall a p r, none_of [QM; HASH] a -> path_suffix a p = Some (Some r) -> none_of [QM; HASH] r.
+Proof. exact suffix_wf. Qed.
+Print Assumptions C16_suffix_wf.
 Theorem C16_K_pct_dotdot_witness :
   path_suffix kp_a kp_p = Some (Some [46;46]%N) /\ nsegs kp_a = [DOTDOT; DOTDOT] /\ norm (is_abs kp_p) (segs kp_p ++ segs [46;46]%N) = [].
 Proof. exact K_pct_dotdot_witness. Qed.
